@@ -7,6 +7,7 @@ use flo_curves::arc::*;
 use flo_curves::bezier::path::*;
 use flo_curves::bezier::*;
 use flo_curves::line::*;
+use flo_curves::bezier::verif_hooks::FatLine;
 use std::sync::atomic::{AtomicUsize, Ordering};
 
 const TIMEOUT: f64 = 3.0;
@@ -17,6 +18,8 @@ type R = Result<(), String>;
 /// index of the sub-call a guarded closure is in (reported when it panics or does not return)
 static STEP: AtomicUsize = AtomicUsize::new(0);
 fn step(i: usize) { STEP.store(i, Ordering::SeqCst); }
+/// empty sections whose `section_t_for_original_t` is not finite (informational, see `curve_ops`)
+static INFO_EMPTY_SECTION: AtomicUsize = AtomicUsize::new(0);
 
 struct Cat { stats: Stats, max_abandoned: u64 }
 
@@ -117,6 +120,12 @@ fn curve_ops(cat: &mut Cat, name: &str, w: Cub, s: f64) {
         for sec in walk_curve_evenly(&c, s, 0.1 * s).vary_by(vec![0.5 * s, 2.0 * s, s].into_iter().cycle()) { let (a, b) = sec.original_curve_t_values(); f1(&format!("section {} start", k), a)?; f1(&format!("section {} end", k), b)?; k += 1; if k > WALK_CAP { return Err(format!("more than {} sections (counted as non-finite output: the iterator does not end)", WALK_CAP)); } }
         Ok(())
     });
+    run(cat, "walk_curve_evenly_vary_by_with_zero_distance", e, &format!("{} distance={:?} max_error={:?} vary_by cycle of [1, 0, 1] x distance", inp, s, 0.1 * s), move || {
+        let c = lib_curve(&w);
+        let mut k = 0;
+        for sec in walk_curve_evenly(&c, s, 0.1 * s).vary_by(vec![s, 0.0, s].into_iter().cycle()) { let (a, b) = sec.original_curve_t_values(); f1(&format!("section {} start", k), a)?; f1(&format!("section {} end", k), b)?; k += 1; if k > WALK_CAP { return Err(format!("more than {} sections (counted as non-finite output: the iterator does not end)", WALK_CAP)); } }
+        Ok(())
+    });
     run(cat, "walk_curve_unevenly", e, &format!("{} n in [0, 1, 7]", inp), move || { let c = lib_curve(&w); for (i, n) in [0usize, 1, 7].iter().enumerate() { step(i); for sec in walk_curve_unevenly(&c, *n).take(100) { let (a, b) = sec.original_curve_t_values(); f1("section start", a)?; f1("section end", b)?; f2("section start point", sec.start_point())?; let (p, q) = sec.control_points(); f2("section cp1", p)?; f2("section cp2", q)?; } } Ok(()) });
     run(cat, "fit_curve_20_samples", e, &format!("{} points = point_at_pos(k/19) for k in 0..20, max_error={:?}", inp, 0.1 * s), move || { let c = lib_curve(&w); let pts: Vec<Coord2> = (0..20).map(|k| c.point_at_pos(k as f64 / 19.0)).collect(); step(1); match fit_curve::<Curve<Coord2>>(&pts, 0.1 * s) { Some(f) => fchain("fit", &f), None => Ok(()) } });
     let d = 2.0 * s;
@@ -141,6 +150,16 @@ fn curve_ops(cat: &mut Cat, name: &str, w: Cub, s: f64) {
             let sub = sec.subsection(1.0, 1.0);
             let (p, q) = sub.control_points();
             f2("subsection(1,1) cp1", p)?; f2("subsection(1,1) cp2", q)
+        });
+        // informational (decision of the property owner): a parameter conversion of an EMPTY section is not one of the operations
+        // the property enumerates and the inverse of a constant map is undefined; non-finite results are counted, not failed
+        run(cat, &sname.replace("section_control_points", "section_t_for_original_t"), e, &format!("{} section({}, {}).section_t_for_original_t(t) for t in [{}, {}, 0.5]", inp, a, b, a, b), move || {
+            let c = lib_curve(&w);
+            let sec = c.section(a, b);
+            let vals = [sec.section_t_for_original_t(a), sec.section_t_for_original_t(b), sec.section_t_for_original_t(0.5)];
+            if vals.iter().any(|v| !v.is_finite()) {
+                if a == b { INFO_EMPTY_SECTION.fetch_add(1, Ordering::SeqCst); Ok(()) } else { Err(format!("section_t_for_original_t of a non-empty section = {:?}", vals)) }
+            } else { Ok(()) }
         });
     }
 }
@@ -208,7 +227,7 @@ fn fit_ops(cat: &mut Cat) {
         ("points.scale_1e6", vec![p(0.0, 0.0), p(1e6, 2e6), p(3e6, 3e6), p(5e6, 2e6)]),
     ];
     for (name, pts) in sets {
-        for (me, op) in [(0.1, "fit_curve"), (1e-9, "fit_curve_max_error_1e-9")] {
+        for (me, op) in [(0.1, "fit_curve"), (1e-9, "fit_curve_max_error_1e-9"), (0.0, "fit_curve_max_error_0"), (-1.0, "fit_curve_max_error_negative")] {
             let pts2 = pts.clone();
             run(cat, op, name, &format!("points={:?} max_error={:?}", pts, me), move || match fit_curve::<Curve<Coord2>>(&pts2, me) { Some(f) => fchain("fit", &f), None => Ok(()) });
         }
@@ -310,6 +329,190 @@ pub fn search(_seed: u64, n: u64) {
     fit_ops(&mut cat);
     path_ops(&mut cat);
     cat.stats.add("abandoned_threads", abandoned_threads());
+    cat.stats.add("info.section_t_for_original_t_empty_section_non_finite", INFO_EMPTY_SECTION.load(Ordering::SeqCst) as u64);
     cat.stats.print("C20", "search");
     finish();
+}
+
+// ---------------------------------------------------------------------------------------------------------------------
+// correspondence: the real functions against the generated definitions (Float mirror and exact XQ), concentrated on the
+// degenerate classes of the property. Every output number is compared for its finite / non-finite status first.
+
+fn hx2(p: Coord2) -> String { format!("{} {}", hx(p.0), hx(p.1)) }
+fn hxw(w: &Cub) -> String { format!("{} {} {} {}", hx2(w[0]), hx2(w[1]), hx2(w[2]), hx2(w[3])) }
+fn hxl(l: &(Coord2, Coord2)) -> String { format!("{} {}", hx2(l.0), hx2(l.1)) }
+fn optp(r: Option<Coord2>) -> String { match r { None => format!("#0 {} {}", hx(0.0), hx(0.0)), Some(p) => format!("#1 {}", hx2(p)) } }
+fn optr(r: Option<(f64, f64)>) -> String { match r { None => format!("#0 {} {}", hx(0.0), hx(0.0)), Some((a, b)) => format!("#1 {} {}", hx(a), hx(b)) } }
+
+/// a curve of one of the degenerate classes of the property (or a generic one); `dy`: coordinates k/8 in [-16,16] so that
+/// the implementation's arithmetic is exact on the division-free kernels
+fn corr_curve(rng: &mut Rng, dy: bool) -> (Cub, String, f64) {
+    let scale = if dy { 1.0 } else { [1.0, 1.0, 1e-9, 1e6, 1e-3, 1e3][rng.i(6) as usize] };
+    let mut g = |rng: &mut Rng| if dy { Coord2(rng.dyadic(-16, 16, 8), rng.dyadic(-16, 16, 8)) } else { Coord2(rng.r(-10.0, 10.0) * scale, rng.r(-10.0, 10.0) * scale) };
+    let mut p = [g(rng), g(rng), g(rng), g(rng)];
+    let kind = match rng.i(12) {
+        0 => { p[1] = p[0]; p[2] = p[0]; p[3] = p[0]; "all_control_points_equal" }
+        1 => { p[1] = p[0]; p[2] = p[0]; "three_coincident_control_points" }
+        2 => { p[1] = p[3]; p[2] = p[3]; "last_three_control_points_coincident" }
+        3 => { let d = p[3] - p[0]; p[1] = p[0] + d * 0.25; p[2] = p[0] + d * 0.75; "collinear" }
+        4 => { let d = p[3] - p[0]; p[1] = p[0] + d * 1.5; p[2] = p[0] - d * 0.5; "collinear_overshoot" }
+        5 => { p[1].1 = p[0].1; p[2].1 = p[0].1; p[3].1 = p[0].1; "collinear_horizontal" }
+        6 => { p[1].0 = p[0].0; p[2].0 = p[0].0; p[3].0 = p[0].0; "collinear_vertical" }
+        7 => { p[3] = p[0]; "closed_start_equals_end" }
+        8 => { p[1] = p[0]; p[2] = p[3]; "cps_at_ends" }
+        9 => { p[2] = p[1]; "cps_coincident" }
+        10 => { p[3] = p[0]; p[2] = p[1]; "start_equals_end_cps_coincident" }
+        _ => "generic",
+    };
+    (p, format!("{}{}", kind, scale_name(scale)), scale)
+}
+
+fn corr_t(rng: &mut Rng) -> f64 { match rng.i(6) { 0 => 0.0, 1 => 1.0, 2 => 0.5, _ => rng.dyadic(0, 1, 16) } }
+
+/// sections whose control points are exact in binary64 on the dyadic stream: `t_m/(1-t_c)` in {0, 1/4, 1/2, 1}; plus the
+/// degenerate ones of the property (a = b, a = b = 1, reversed)
+fn corr_section(rng: &mut Rng) -> (f64, f64, &'static str) {
+    match rng.i(8) {
+        0 => (0.0, 0.0, "a=b=0"),
+        1 => (1.0, 1.0, "a=b=1"),
+        2 => (0.5, 0.5, "a=b"),
+        3 => (0.0, 1.0, "whole"),
+        4 => (1.0, 0.0, "reversed"),
+        _ => { let a = [0.0, 0.5, 0.75][rng.i(3) as usize]; let f = [1.0, 0.5, 0.25][rng.i(3) as usize]; (a, a + (1.0 - a) * f, "proper") }
+    }
+}
+
+fn corr_line(rng: &mut Rng, w: &Cub, dy: bool, scale: f64) -> ((Coord2, Coord2), &'static str) {
+    let mut g = |rng: &mut Rng| if dy { Coord2(rng.dyadic(-16, 16, 8), rng.dyadic(-16, 16, 8)) } else { Coord2(rng.r(-10.0, 10.0) * scale, rng.r(-10.0, 10.0) * scale) };
+    match rng.i(9) {
+        0 => (((w[0]), (w[0])), "point_line_at_start"),
+        1 => { let p = g(rng); ((p, p), "point_line") }
+        2 => { let p = g(rng); ((p, Coord2(p.0 + 4.0 * scale, p.1)), "horizontal") }
+        3 => { let p = g(rng); ((p, Coord2(p.0, p.1 + 4.0 * scale)), "vertical") }
+        4 => ((w[0], w[3]), "chord"),
+        5 => ((w[0], w[1]), "start_tangent"),
+        6 => ((Coord2(0.0, 0.0), Coord2(0.0, 0.0)), "point_line_at_origin"),
+        _ => ((g(rng), g(rng)), "generic"),
+    }
+}
+
+pub fn corr(seed: u64, n: u64) {
+    install_silent_hook();
+    let mut rng = Rng(seed ^ 0xC20);
+    let mut stats = Stats::new();
+    for it in 0..n {
+        let dy = (it / 12) % 2 == 0;
+        let st = if dy { "D" } else { "R" };
+        let (w, kind, scale) = corr_curve(&mut rng, dy);
+        let c = lib_curve(&w);
+        let op = it % 12;
+        let line = match op {
+            0 => {
+                let t = corr_t(&mut rng);
+                let (l, r): (Curve<Coord2>, Curve<Coord2>) = c.subdivide(t);
+                let (tan, nrm) = (c.tangent_at_pos(t), c.normal_at_pos(t));
+                stats.count(&format!("eval.{}.t{}", kind, if t == 0.0 { "=0" } else if t == 1.0 { "=1" } else { "" }));
+                format!("C20 eval {} {} {} | {} {} {} {} {} {} {}", st, hxw(&w), hx(t), hx2(c.point_at_pos(t)), hx2(tan), hx2(nrm), hx2(tan.to_unit_vector()), hx2(nrm.to_unit_vector()), hxw(&cub_of(&l)), hxw(&cub_of(&r)))
+            }
+            1 => {
+                let (a, b, sk) = corr_section(&mut rng);
+                let t = corr_t(&mut rng);
+                let sec = c.section(a, b);
+                let (p, q) = sec.control_points();
+                let u = sec.t_for_t(t);
+                stats.count(&format!("sec.{}.{}", kind, sk));
+                format!("C20 sec {} {} {} {} {} | {} {} {} {} {} {} {}", st, hxw(&w), hx(a), hx(b), hx(t), hx2(p), hx2(q), hx2(sec.start_point()), hx2(sec.end_point()), hx2(sec.point_at_pos(t)), hx(u), hx(sec.section_t_for_original_t(t)))
+            }
+            2 => {
+                let (l, lk) = corr_line(&mut rng, &w, dy, scale);
+                let probe = w[2];
+                let un = line_coefficients_2d_unnormalized(&l);
+                let co = l.coefficients();
+                stats.count(&format!("line.{}", lk));
+                format!("C20 line {} {} {} | {} {} {} {} {} {} {} {} {} {}", st, hxl(&l), hx2(probe), hx(un.0), hx(un.1), hx(un.2), hx(co.0), hx(co.1), hx(co.2), hx(l.distance_to(&probe)), hx2(l.nearest_point(&probe)), hx(l.pos_for_point(&probe)), hx(l.nearest_pos(&probe)))
+            }
+            3 => {
+                let (l1, k1) = corr_line(&mut rng, &w, dy, scale);
+                let (l2, k2) = corr_line(&mut rng, &w, dy, scale);
+                stats.count(&format!("lines.{}_x_{}", k1, k2));
+                format!("C20 lines {} {} {} | {} {} {}", st, hxl(&l1), hxl(&l2), optp(line_intersects_line(&l1, &l2)), optp(line_intersects_ray(&l1, &l2)), optp(ray_intersects_ray(&l1, &l2)))
+            }
+            4 => {
+                let (w2, kind2, _) = corr_curve(&mut rng, dy);
+                let b = lib_curve(&w2);
+                let fl = FatLine::from_curve(&c);
+                let pl = FatLine::from_curve_perpendicular(&c);
+                let (fc, pc) = (fl.verif_coeff(), pl.verif_coeff());
+                stats.count(&format!("fat.{}", kind));
+                stats.count(&format!("fat.against.{}", kind2));
+                format!("C20 fat {} {} {} | {} {} {} {} {} {} {} {} {} {} {} {}", st, hxw(&w), hxw(&w2), hx(fl.verif_d_min()), hx(fl.verif_d_max()), hx(fc.0), hx(fc.1), hx(fc.2),
+                    hx(pl.verif_d_min()), hx(pl.verif_d_max()), hx(pc.0), hx(pc.1), hx(pc.2), optr(fl.clip_t(&b)), optr(pl.clip_t(&b)))
+            }
+            5 => {
+                let b: Bounds<Coord2> = c.bounding_box();
+                let f: Bounds<Coord2> = c.fast_bounding_box();
+                stats.count(&format!("bbox.{}", kind));
+                format!("C20 bbox {} {} | {} {} {} {}", st, hxw(&w), hx2(b.min()), hx2(b.max()), hx2(f.min()), hx2(f.max()))
+            }
+            6 => {
+                let (l, lk) = corr_line(&mut rng, &w, dy, scale);
+                let _ = verif_roots::take();
+                let hits = curve_intersects_ray(&c, &l);
+                let roots = verif_roots::take().map(|(_, r)| r).unwrap_or_default();
+                stats.count(&format!("cray.{}.{}", kind, lk));
+                let mut line = format!("C20 cray {} {} {} #{}", st, hxw(&w), hxl(&l), roots.len());
+                for r in &roots { line += &format!(" {}", hx(*r)); }
+                line += &format!(" | #{}", hits.len());
+                for (t, s, p) in hits.iter() { line += &format!(" {} {} {}", hx(*t), hx(*s), hx2(*p)); }
+                line
+            }
+            7 => {
+                // distances incl. zero and negative ones (clamped by the constructor), tolerances likewise
+                let len = control_polygon_length(&c).max(1e-3 * scale);
+                let distance = match rng.i(6) { 0 => 0.0, 1 => -1.0 * scale, _ => len * rng.r(0.05, 2.0) };
+                let max_error = match rng.i(6) { 0 => 0.0, 1 => -1.0 * scale, _ => distance.abs().max(1e-3 * scale) * rng.r(0.01, 0.25) };
+                let cap = 400usize;
+                let secs: Vec<(f64, f64)> = walk_curve_evenly(&c, distance, max_error).take(cap).map(|s| s.original_curve_t_values()).collect();
+                stats.count(&format!("walk.{}.{}", kind, if distance <= 0.0 { "distance<=0" } else if max_error <= 0.0 { "max_error<=0" } else { "positive" }));
+                let mut line = format!("C20 walk {} {} {} {} #{} | #{}", st, hxw(&w), hx(distance), hx(max_error), cap, secs.len());
+                for (a, b) in &secs { line += &format!(" {} {}", hx(*a), hx(*b)); }
+                line
+            }
+            8 => {
+                let k = [0usize, 1, 2, 7, 49][rng.i(5) as usize];
+                let secs: Vec<(f64, f64)> = walk_curve_unevenly(&c, k).take(k + 2).map(|s| s.original_curve_t_values()).collect();
+                stats.count(&format!("uneven.n{}", k));
+                let mut line = format!("C20 uneven {} #{} | #{}", st, k, secs.len());
+                for (a, b) in &secs { line += &format!(" {} {}", hx(*a), hx(*b)); }
+                line
+            }
+            9 => {
+                let e = [1e-2, 1e-4, 1e-8, 0.0, -1.0][rng.i(5) as usize] * scale * scale;
+                stats.count(&format!("len.{}.e{}", kind, if e > 0.0 { ">0" } else { "<=0" }));
+                format!("C20 len {} {} {} | {} {} {}", st, hxw(&w), hx(e), hx(curve_length(&c, e)), hx(chord_length(&c)), hx(control_polygon_length(&c)))
+            }
+            10 => {
+                // a varied walk: the distances of `vary_by` include 0 and negative ones (clamped since repair b75d9d0)
+                let len = control_polygon_length(&c).max(1e-3 * scale);
+                let d0 = len * rng.r(0.05, 1.0);
+                let max_error = d0 * rng.r(0.01, 0.25);
+                let mut v = |rng: &mut Rng| match rng.i(5) { 0 => 0.0, 1 => -1.0 * scale, 2 => d0 * 0.5, 3 => d0 * 2.0, _ => d0 };
+                let vs = vec![v(&mut rng), v(&mut rng), v(&mut rng)];
+                let cap = 300usize;
+                let secs: Vec<(f64, f64)> = walk_curve_evenly(&c, d0, max_error).vary_by(vs.clone().into_iter().cycle()).take(cap).map(|s| s.original_curve_t_values()).collect();
+                stats.count(&format!("vary.{}.{}", kind, if vs.iter().any(|x| *x <= 0.0) { "with_distance<=0" } else { "positive" }));
+                let mut line = format!("C20 vary {} {} {} {} {} #{} | #{}", st, hxw(&w), hx(d0), hx(max_error), hxs(&vs), cap, secs.len());
+                for (a, b) in &secs { line += &format!(" {} {}", hx(*a), hx(*b)); }
+                line
+            }
+            _ => {
+                let v = match rng.i(4) { 0 => Coord2(0.0, 0.0), 1 => w[1] - w[0], 2 => Coord2(3.0 * scale, 4.0 * scale), _ => w[3] - w[0] };
+                stats.count(&format!("unit.{}", if v.0 == 0.0 && v.1 == 0.0 { "zero_vector" } else { "non_zero" }));
+                format!("C20 unit {} {} | {} {}", st, hx2(v), hx2(v.to_unit_vector()), hx(v.magnitude()))
+            }
+        };
+        stats.case(&line, !kind.starts_with("generic"));
+        println!("{}", line);
+    }
+    stats.print("C20", "corr");
 }
